@@ -86,9 +86,12 @@ def r03_1(ctx, fx):
         pk = fn.calls(r"Peekable(<.*>)?::peek$")
         okp = False
         for p in pk:
-            for s in fn.calls(r"option::Option(<.*>)?::is_some$"):
+            for s in fn.calls(r"option::Option(<.*>)?::(is_some|is_none)$"):
                 if p.dest[0] in slice_locals(fn, s.args[0]) | _ref_locals(fn, s.args[0]):
-                    okp = okp or any(fn.only_via(c.node, sw, [f]) for sw, t, f in fn.bool_tests(s.dest[0]))
+                    none = s.name.endswith("is_none")
+                    # behind "no further candidate": the false edge of is_some() / the true edge of is_none() (also as one conjunct of `&&`)
+                    edges = {(sw, (t if none else f)) for sw, t, f in fn.bool_tests(s.dest[0])}
+                    okp = okp or (bool(edges) and c.node not in fn.reach([fn.entry], cut=edges))
         ctx.ob("R03.1", "dialer/V1Lazy-only-for-the-last-candidate", okp, site=fn.site(c.node), cfg=fx.cfg)
     # NotAvailable -> next candidate from the iterator; exhaustion -> Failed
     nx = fn.calls(r"Iterator>?::next$")
@@ -168,6 +171,11 @@ def r03_2(ctx, fx):
             eq = cl.calls(r"::eq$")
             somes = [n for n, sh in cl.exits() if any(s.startswith("Some") or s.startswith("const:1") for s in sh)]
             ok = bool(eq) and bool(somes) and all(any(cl.only_via(n, sw, [t]) for e in eq for sw, t, f in cl.bool_tests(e.dest[0])) for n in somes)
+            if not ok and eq:
+                # a predicate closure (`find(|(_, p)| p == requested)`) that returns the comparison itself
+                from common import closure_returns
+                rets = closure_returns(cl)
+                ok = bool(rets) and all(r is not None and r[0] == 1 and r[1].matches(r"::eq$") for r in rets)
             ctx.ob("R03.2", "listener/supported-lookup-matches-only-on-equality", ok, site=cl.site(cl.entry), cfg=fx.cfg,
                    detail="the closure answers Some/true only over the equal edge of `requested == supported`")
             if eq:
